@@ -161,7 +161,8 @@ def checks (w : World) : Label → Checks
   | .newEvent e ty parent _ =>
     [("newEvent: id is not the next event id", e == w.ne),
      ("newEvent: type key must not be the wildcard", ty != 0),
-     ("newEvent: supplied parent must be an existing event", match parent with | some p => p < w.ne | none => true)]
+     ("newEvent: supplied parent must be an existing event (or the event itself)",
+        match parent with | some p => p < w.ne || p == e | none => true)]
   | .tick t =>
     [("tick: time goes backwards", w.now ≤ t),
      ("tick: passes an armed handler deadline without cancelling the handler", noDeadlineBefore w t),
